@@ -21,7 +21,8 @@
 // the read-only hook to cap-2 / cap-1 remembered values: replays of G rejected; from cap on the model
 // decides); rounds of 16 DISTINCT fresh handshakes released together, then replays of an older one
 // and of a sample (all rejected, filter size = number accepted); 16-way bursts of one blob on a
-// bridge that remembers nothing (known finding concurrent-replay-on-empty-filter). (The 3 h expiry of filter entries cannot be waited for: that part is carried by the
+// bridge that remembers nothing (regression of the repaired defect concurrent-replay-on-empty-filter:
+// before 'fix: replayfilter: read the clock under the lock …' about 1 % of such rounds showed 2 successes). (The 3 h expiry of filter entries cannot be waited for: that part is carried by the
 // theorem C04.at_most_once and C11's own tie.)
 package main
 
